@@ -7,6 +7,9 @@
 * MDF couplings: on a real MDF formulation (strongly coupled pair + a weak coupling, three main MDAs) whose design space holds the
   design variable and a chosen subset of the couplings, MDF._remove_couplings_from_ds must leave no coupling of the MDA (weak or
   strong) in the design space and keep the other variables.
+* construction (c17_build): real IDF on affine disciplines (declared linear or not): one consistency constraint per discipline with output
+  couplings, in order, vanishing at the multidisciplinary solution; IDF requires the couplings as design variables and keeps the design space;
+  real MDF: after construction the design space holds exactly the entry variables that are inputs of the MDA and no couplings.
 Deterministic enumeration; witness = the scenario.
 """
 from __future__ import annotations
@@ -114,12 +117,122 @@ def run_mdf(mda_name, present):
     return None
 
 
+def _coupled(linear):
+    """Two strongly coupled affine disciplines + a system discipline; optionally declared linear (io.set_linear_relationships())."""
+    from gemseo.disciplines.analytic import AnalyticDiscipline
+
+    ds = [AnalyticDiscipline({"y1": "0.3*y2 + x + 1"}, name="D1"), AnalyticDiscipline({"y2": "0.2*y1 - 0.5*x + 2"}, name="D2"),
+          AnalyticDiscipline({"f": "y1 + 2*y2 + x"}, name="D3")]
+    if linear:
+        for d in ds:
+            d.io.set_linear_relationships()
+    return ds
+
+
+def run_idf_build(linear, normalize, order):
+    """Real IDF: exactly one consistency constraint per discipline with output couplings, in the order of the disciplines, each vanishing at
+    the multidisciplinary solution (also when the disciplines are declared linear and the constraints are linearised)."""
+    from gemseo.algos.design_space import DesignSpace
+    from gemseo.formulations.idf import IDF
+
+    y1 = (0.3 * (0.2 * 1 - 0.25 + 2) + 0.5 + 1)  # fixed point for x = 0.5: y1 = 0.3 y2 + 1.5, y2 = 0.2 y1 + 1.75
+    y1 = (0.3 * 1.75 + 1.5) / (1 - 0.06)
+    y2 = 0.2 * y1 + 1.75
+    sol = {"x": 0.5, "y1": y1, "y2": y2}
+    space = DesignSpace()
+    for n in order:
+        space.add_variable(n, lower_bound=-10.0, upper_bound=10.0, value=1.0)
+    discs = _coupled(linear)
+    with warnings.catch_warnings():
+        warnings.simplefilter("ignore")
+        f = IDF(discs, "f", space, normalize_constraints=normalize)
+        cs = f.coupling_structure
+        expected = [cs.get_output_couplings(d, strong=False) for d in discs]
+        expected = [e for e in expected if e]
+        got = [c.name for c in f.optimization_problem.constraints]  # (a linearised constraint is named <couplings>_linearized)
+        if len(got) != len(expected) or any(not g.startswith("_".join(e)) for e, g in zip(expected, got)):
+            return {"what": "IDF does not add exactly one consistency constraint per discipline with output couplings, in order", "expected": expected, "got": got}
+        vec = np.array([sol[n] for n in f.design_space.variable_names])
+        off = vec.copy()
+        off[list(f.design_space.variable_names).index("y1")] += 1.0
+        for c, e in zip(f.optimization_problem.constraints, expected):
+            v = float(np.abs(np.ravel(c.evaluate(vec))).max())
+            if v > 1e-9:
+                return {"what": "an IDF consistency constraint does not vanish at the multidisciplinary solution", "constraint": c.name, "type": type(c).__name__,
+                        "declared_linear": linear, "normalize_constraints": normalize, "design_variables": list(order), "value": v}
+            if e == ["y1"] and float(np.abs(np.ravel(c.evaluate(off))).max()) < 1e-6:
+                return {"what": "the consistency constraint of y1 vanishes although the target y1 is off by 1", "constraint": c.name, "declared_linear": linear}
+    return None
+
+
+def run_idf_init(missing):
+    """IDF requires every coupling as a design variable (ValueError otherwise) and keeps the design space as it is."""
+    from gemseo.algos.design_space import DesignSpace
+    from gemseo.formulations.idf import IDF
+
+    space = DesignSpace()
+    for n in ("x", "y1", "y2", "unused"):
+        if n not in missing:
+            space.add_variable(n, lower_bound=-10.0, upper_bound=10.0, value=1.0)
+    before = list(space.variable_names)
+    with warnings.catch_warnings():
+        warnings.simplefilter("ignore")
+        try:
+            f = IDF(_coupled(False), "f", space)
+        except ValueError:
+            return None if set(missing) & {"y1", "y2"} else {"what": "IDF raises ValueError although every coupling is a design variable", "missing": list(missing)}
+    if set(missing) & {"y1", "y2"}:
+        return {"what": "IDF accepts a design space without a coupling variable", "missing": list(missing)}
+    if list(f.design_space.variable_names) != before or sorted(f.all_couplings) != sorted(f.coupling_structure.all_couplings):
+        return {"what": "IDF changed the design space / all_couplings differ from the coupling structure's", "before": before, "after": list(f.design_space.variable_names)}
+    tops = f.get_top_level_disciplines()
+    if list(tops) != list(f.disciplines):
+        return {"what": "IDF.get_top_level_disciplines() is not the disciplines", "got": [d.name for d in tops]}
+    return None
+
+
+def run_mdf_update(mda_name, present):
+    """Real MDF construction: afterwards the design space holds exactly the entry variables that are no couplings and are inputs of the MDA."""
+    from gemseo.algos.design_space import DesignSpace
+    from gemseo.disciplines.analytic import AnalyticDiscipline
+    from gemseo.formulations.mdf import MDF
+
+    d1 = AnalyticDiscipline({"y1": "0.3*y2 + x + 1"}, name="D1")
+    d2 = AnalyticDiscipline({"y2": "0.2*y1 - 0.5*x + 2", "w": "x**2 + 0.1*y1"}, name="D2")
+    d3 = AnalyticDiscipline({"f": "w**2 + y1 + y2 + x + x2"}, name="D3")
+    ds = DesignSpace()
+    for n in ["x", *present]:
+        ds.add_variable(n, lower_bound=-10.0, upper_bound=10.0, value=0.5)
+    before = list(ds.variable_names)
+    with warnings.catch_warnings():
+        warnings.simplefilter("ignore")
+        f = MDF([d1, d2, d3], "f", ds, main_mda_name=mda_name)
+    couplings = set(f.mda.coupling_structure.all_couplings)
+    inputs = set(f.mda.io.input_grammar)
+    after = list(f.design_space.variable_names)
+    expected = [n for n in before if n not in couplings and n in inputs]
+    tops = f.get_top_level_disciplines()
+    if after != expected or len(tops) != 1 or tops[0] is not f.mda:
+        return {"what": "after MDF construction the design space is not {entry variables that are inputs of the MDA and no couplings} (or the MDA is not the only "
+                        "top-level discipline)", "main_mda": mda_name, "couplings": sorted(couplings), "before": before, "after": after, "expected": expected}
+    return None
+
+
 MDF_CASES = [(m, list(p)) for m in ("MDAChain", "MDAGaussSeidel", "MDAJacobi") for r in range(4) for p in itertools.combinations(("y1", "y2", "w"), r)]
 
 
 def scenarios():
     for m, p in MDF_CASES:
         yield {"kind": "mdf", "main_mda": m, "present": p}
+    for linear, normalize in itertools.product((True, False), (False, True)):
+        for order in (("x", "y1", "y2"), ("y2", "x", "y1")):
+            yield {"kind": "idf_build", "linear": linear, "normalize": normalize, "order": list(order)}
+    for missing in ((), ("y1",), ("y2",), ("unused",), ("y1", "y2")):
+        yield {"kind": "idf_init", "missing": list(missing)}
+    for m in ("MDAChain", "MDAJacobi"):
+        for r in range(4):
+            for p in itertools.combinations(("y1", "w", "x2", "unused"), r):
+                yield {"kind": "mdf_update", "main_mda": m, "present": list(p)}
     for (lb, ub), normalize, point in itertools.product(BOUNDS, (True, False), POINTS):
         yield {"kind": "consistency", "lb": lb, "ub": ub, "normalize": normalize, "point": list(point)}
     for sizes in ((1, 2, 1), (2, 1, 3)):
@@ -134,6 +247,12 @@ def _run(s):
             return run_consistency(s["lb"], s["ub"], s["normalize"], tuple(s["point"]))
         if s["kind"] == "mdf":
             return run_mdf(s["main_mda"], s["present"])
+        if s["kind"] == "idf_build":
+            return run_idf_build(s["linear"], s["normalize"], tuple(s["order"]))
+        if s["kind"] == "idf_init":
+            return run_idf_init(tuple(s["missing"]))
+        if s["kind"] == "mdf_update":
+            return run_mdf_update(s["main_mda"], s["present"])
         return run_mask(tuple(s["sizes"]), tuple(s["subset"]))
     except Exception as e:  # noqa: BLE001
         return {"exception": repr(e)}
@@ -141,8 +260,15 @@ def _run(s):
 
 def replay(ob, seed=0):
     kind = "consistency" if "consistency_constraint" in ob.func else ("mdf" if "_remove_couplings_from_ds" in ob.func else "mask")
+    kinds = (kind,)
+    if "_build_constraints" in ob.func:
+        kinds = ("idf_build",)
+    elif ob.func.endswith("IDF.__init__") or "IDF.get_top_level_disciplines" in ob.func:
+        kinds = ("idf_init", "idf_build")
+    elif "_remove_unused_variables" in ob.func or "MDF._update_design_space" in ob.func or "MDF.get_top_level_disciplines" in ob.func or ob.func.endswith("MDF.__init__"):
+        kinds = ("mdf_update",)
     for s in scenarios():
-        if s["kind"] != kind:
+        if s["kind"] not in kinds:
             continue
         r = _run(s)
         if r is not None:
